@@ -33,9 +33,12 @@ BASE_LOGS = np.array([[sx * 2.0, sy * 2.0, sz * 2.0, sc * 2.0, sk * 2.0] for sx 
 MAGNITUDE_LIMIT = 230.0
 
 
+SEED_BOX = BASE_LOGS.copy()            # a seeded random configuration puts every base unit within 1e-2 .. 1e2
+
+
 def set_base_logs(rows):
     global BASE_LOGS
-    BASE_LOGS = np.asarray(rows, float).reshape(-1, 5)
+    BASE_LOGS = np.vstack([np.asarray(rows, float).reshape(-1, 5), SEED_BOX])
 
 
 WEIGHT_LIMIT = 40.0
@@ -418,9 +421,15 @@ def config_key(cfg):
     return kind
 
 
-def configs_for_case(i, n_named=18, n_seeds=5):
+def configs_for_case(i, n_named=18, n_seeds=5, rng=None, n_random=0):
+    """default, SI, n_named named choices (rotating through all of them), n_seeds seeded random
+    configurations of which the last n_random use a seed drawn from rng instead of the fixed list."""
     named = all_named()
     out = [('default', dict(DEFAULT)), ('SI', None)]
     out += [named[(i * n_named + k) % len(named)] for k in range(n_named)]
-    out += [('seed', SEEDS[(i * n_seeds + k) % len(SEEDS)]) for k in range(n_seeds)]
+    for k in range(n_seeds):
+        if rng is not None and k >= n_seeds - n_random:
+            out.append(('seed', int(rng.integers(100, 2 ** 31))))
+        else:
+            out.append(('seed', SEEDS[(i * n_seeds + k) % len(SEEDS)]))
     return out
